@@ -94,7 +94,12 @@ def gen_song(rng, ntracks=None, loops=None, tempo_changes=True, same_tick=True, 
                 tick = length_ticks
             ch = rng.choice([0, 1, 9, 15])
             c = rng.random()
-            if c < 0.35:
+            if c < 0.07 and (ch, 72) not in sounding:
+                # a zero-length note: note-on and note-off of one key at one tick
+                evs.append((tick, bytes([0x90 | ch, 72, 100]), ("on", ch, 72)))
+                evs.append((tick, bytes([0x80 | ch, 72, 0]) if rng.random() < 0.5 else bytes([0x90 | ch, 72, 0]), ("off", ch, 72)))
+                tick += rng.choice([1, division])
+            elif c < 0.35:
                 key = rng.choice([60, 61, 62, 36, 38])
                 evs.append((tick, bytes([0x90 | ch, key, rng.choice([1, 64, 127])]), ("on", ch, key)))
                 sounding[(ch, key)] = True
